@@ -212,6 +212,15 @@ def enc_obs(o):
 
 
 def eval_case(desc, ctx):
+    if desc["k"] == "records":
+        # the output-record clause: identifiers in every record strictly increasing, pid[k] >= k, each
+        # record holding exactly the living particles with their own values (driver and oracle of C06)
+        import c06
+
+        r = c06.eval_case(desc["c06"], ctx)
+        return {"ints": None, "oracle": ("output records: " + r["oracle"]) if r["oracle"] else None,
+                "nontrivial": ("records",) + tuple(r["nontrivial"]) if r.get("nontrivial") else None, "kind": "records-" + r["kind"],
+                "observed": r.get("observed")}
     st = make_state()
     ref = Ref()
     ints = [len(ICOLS), len(PCOLS)] + [IDEF.get(c, NAN) for c in ICOLS] + [PDEF.get(c, NAN) for c in PCOLS] + [len(desc["ops"])]
@@ -342,4 +351,10 @@ def gen_cases(ctx):
             out.append({"k": "ops", "gen": f"exhaustive-{L}", "ops": expand(seq)})
     for i in range(nrand):
         out.append({"k": "ops", "gen": "random", "ops": rand_ops(rng, rng.choice(lens))})
+    import c06
+
+    for d in c06.gen_cases(ctx)[: (25 if ctx.quick else 200)]:
+        d["layout"] = "sparse"
+        d["numrec"] = rng.choice([1, 2, 2, 3])
+        out.append({"k": "records", "c06": d})
     return out
